@@ -196,3 +196,18 @@ func init() {
 
 // HeldLocks: number of mutexes the analysed thread holds (intrinsic vHeld).
 func heldCount() int { return len(heldLocks) + len(rwHeld) }
+
+func init() {
+	// math/rand.Intn(n): an arbitrary value in [0, n). It is an environment decision when the
+	// case sets the parameter rand_choice=1 (every pick is explored), else the first alternative.
+	lateModels["math/rand.Intn"] = func(fr *frame, args []value) value {
+		modelsHit["math/rand.Intn"]++
+		n := int(asInt64(args[0]))
+		if n <= 1 || ex.Params["rand_choice"] != 1 {
+			return 0
+		}
+		t := ex.newInput("rand", 8)
+		ex.assume(mkCmp("bvult", t, mkConst(8, uint64(n))))
+		return int(ex.concretizeRange(t, 0, int64(n-1)))
+	}
+}
